@@ -22,6 +22,9 @@ const (
 	confKeyGitlabBaseUrl = "base-url"
 	confKeyDefaultLogin  = "default-login"
 
+	// git-bug does not accept empty titles (same placeholder as the github bridge)
+	emptyTitlePlaceholder = "<empty string>"
+
 	defaultBaseURL = "https://gitlab.com/"
 	defaultTimeout = 60 * time.Second
 )
